@@ -463,6 +463,7 @@ func (s *session) doTargetTooHigh(reject targetTooHigh) (nextState resendState, 
 
 func (s *session) sendResendRequest(beginSeq, endSeq int) (nextState resendState, err error) {
 	nextState.resendRangeEnd = endSeq
+	nextState.storeCreationTime = s.store.CreationTime()
 	// Allocate the stash with the state: resendState is copied by value, and a stash
 	// created later in a copy would not be seen by the copies that are kept.
 	nextState.messageStash = make(map[int]*Message)
